@@ -13,3 +13,9 @@ def run(prog, rep):
     r_dim.run_faith(prog, rep)
     r_dim.run_alias(prog, rep)
     r_dim.run_ticks_write(prog, rep)
+    from ..rules import r_key, r_codec
+    dims = ('nix::hdf5::SampledDimensionHDF5', 'nix::hdf5::RangeDimensionHDF5', 'nix::hdf5::SetDimensionHDF5', 'nix::hdf5::DataFrameDimensionHDF5', 'nix::hdf5::DimensionHDF5')
+    r_key.run(prog, rep, only=dims, floor=8)
+    r_key.run_getters(prog, rep, only=dims, floor=4)
+    r_codec.run_string_enum(prog, rep, 'nix::DimensionType', 'nix::hdf5::dimensionTypeToStr', 'nix::hdf5::dimensionTypeFromStr', 'DIM')
+    r_codec.run_dim_open(prog, rep)
